@@ -15,9 +15,9 @@ class _Region:
 
 class _SM:
     def __init__(self):
-        from hippolyzer.lib.base.settings import Settings
-        self.settings = Settings()
-        self.settings.ENABLE_DEFERRED_PACKET_PARSING = False
+        # the client's own settings class, untouched: how the endpoint parses what it receives is part of what is checked
+        from hippolyzer.lib.client.hippo_client import ClientSettings
+        self.settings = ClientSettings()
 
 
 class _Session:
@@ -63,10 +63,15 @@ class Env:
 
     def wire(self):
         from hippolyzer.lib.base.message.udpdeserializer import UDPMessageDeserializer
-        d = UDPMessageDeserializer(settings=self.session.session_manager.settings)
+        d = self.__dict__.setdefault("_wire_deser", UDPMessageDeserializer())     # kept alive: lazily parsed messages hold it weakly
         out = [d.deserialize(p.data) for p in self.tr.packets[self.seen:]]
         self.seen = len(self.tr.packets)
         return out
+
+
+def UUID_ZERO():
+    from hippolyzer.lib.base.datatypes import UUID
+    return UUID(int=0)
 
 
 def bounded_arrivals(reg, tier, seed):
@@ -91,15 +96,44 @@ def bounded_arrivals(reg, tier, seed):
             sends = {}           # our reliable sends: packet id -> dict(future, acked, ticks)
             last_id = -1
             steps = rng.randrange(5, 35)
+            # the resend interval is a setting of the circuit, and the time between sweeps is the caller's business: any sweep made
+            # after more than the interval has passed counts against the retry budget
+            env.circuit.resend_every = rng.choice([env.circuit.resend_every, env.circuit.resend_every, 0.25, 1.5])
+            gaps = [0.05, 0.5, 86400.0 + 2.0, 3 * 86400.0]
             raise_in = rng.choice([None, "session", "region"])
             if raise_in:
                 def boom(m):
                     raise RuntimeError("subscriber failure")
                 (env.sh if raise_in == "session" else env.rh).subscribe("CompletePingCheck", boom)
             for _ in range(steps):
-                ev = rng.choice(["rel", "rel", "dup", "unrel", "send", "ack_app", "ack_pkt", "tick"])
+                ev = rng.choice(["rel", "rel", "dup", "unrel", "send", "ack_app", "ack_pkt", "tick", "rel_cut"])
                 evals += 1
-                if ev in ("rel", "dup", "unrel"):
+                if ev == "rel_cut":
+                    # a reliable packet whose header is intact but whose body does not decode (cut short): it was received, so it
+                    # is acknowledged on every arrival and handed to the subscribers once (they get the message, body unparsed)
+                    pid = rng.randrange(20, 26)
+                    m = Message("ChatFromSimulator", Block("ChatData", FromName="x", SourceID=UUID_ZERO(), OwnerID=UUID_ZERO(), SourceType=1,
+                                                           ChatType=1, Audible=1, Position=(0, 0, 0), Message="hello"),
+                                packet_id=pid, direction=Direction.IN, flags=PacketFlags.RELIABLE)
+                    data = ser.serialize(m)[:-6]
+                    trace.append((ev, pid))
+                    before = {k: len(v) for k, v in env.got.items()}
+                    try:
+                        env.proto.datagram_received(data, env.sim)
+                    except Exception as ex:  # noqa
+                        fail("client/raise", f"reliable packet with an undecodable body: {type(ex).__name__} escaped datagram_received", {"trace": [str(t) for t in trace[-6:]]})
+                    out = env.wire()
+                    acked = [b["ID"] for w in out if w.name == "PacketAck" for b in w["Packets"]]
+                    if acked != [pid]:
+                        fail("client/ack", f"reliable packet {pid} (body cut short) acknowledged with {acked}, expected exactly [{pid}]", {"trace": [str(t) for t in trace[-6:]]})
+                    for lvl in ("session", "region"):
+                        n_new = len(env.got[lvl]) - before[lvl]
+                        want = 0 if pid in delivered[lvl] else 1
+                        if n_new != want:
+                            fail("client/dispatch", f"reliable packet {pid} (body cut short) delivered {n_new} times to {lvl}-level subscribers, expected {want}",
+                                 {"trace": [str(t) for t in trace[-8:]], "level": lvl})
+                        delivered[lvl].add(pid)
+                elif ev in ("rel", "dup", "unrel"):
                     if ev == "dup" and delivered["session"]:
                         pid = rng.choice(sorted(delivered["session"]))
                         reliable = True
@@ -169,7 +203,7 @@ def bounded_arrivals(reg, tier, seed):
                     if not sends[a]["failed"]:
                         sends[a]["acked"] = True
                 elif ev == "tick":
-                    env.clock.advance(env.circuit.resend_every + 0.5)
+                    env.clock.advance(env.circuit.resend_every + rng.choice(gaps))
                     env.circuit.resend_unacked()
                     out = env.wire()
                     trace.append(("tick",))
@@ -202,5 +236,5 @@ def bounded_arrivals(reg, tier, seed):
             env.close()
     return {"name": "client-arrival-sequences", "evaluations": evals, "distinct_nontrivial": len(seen),
             "rule": f"{runs} seeded arrival sequences (5..35 events) over {{reliable, duplicate of an earlier reliable, unreliable, our reliable send, "
-                    "ack appended, ack as PacketAck, clock tick past the resend interval}} with optional raising subscriber at either level; "
+                    "ack appended, ack as PacketAck, clock tick past the resend interval, reliable packet whose body is cut short}} with optional raising subscriber at either level; "
                     "distinct = distinct event traces", "bounded": True, "bounds": {"runs": runs}, "samples": samples, "failures": failures}
